@@ -149,9 +149,22 @@ def kernel_sides(variant, kpos, kneg):
     return {"kernel_post_kwargs": kpos, "kernel_pre_kwargs": kneg}
 
 
-def make_trainer(variant, p, red, kpos=None, kneg=None):
+INPLACE = [None, "trainer", "cell", "cell-off"]
+
+
+def inplace_flags(mode):
+    """how a cell comes to write its monitors' records in place (`inplace` is a constructor default that register_cell may
+    override, like every other hyper-parameter; it is an implementation option and never changes the documented update):
+    None = nowhere | 'trainer' = constructor default True | 'cell' = register_cell(inplace=True) under a default-False trainer
+    | 'cell-off' = register_cell(inplace=False) under a default-True trainer   → (constructor value, register_cell kwargs)"""
+    return {None: (False, {}), "trainer": (True, {}), "cell": (False, {"inplace": True}), "cell-off": (True, {"inplace": False})}[mode]
+
+
+def make_trainer(variant, p, red, kpos=None, kneg=None, inplace=False):
     """the trainer of a variant with CONSTRUCTOR hyper-parameters p (the defaults of every cell registered without overrides)"""
     kw = dict(batch_reduction=REDUCTIONS[red])
+    if inplace:
+        kw["inplace"] = True
     rates = {HYPER[k]: p[k] for k in HYPER}
     kpos = kpos if kpos is not None else {"learning_rate": p["lrPos"], "time_constant": p["tcPos"]}
     kneg = kneg if kneg is not None else {"learning_rate": p["lrNeg"], "time_constant": p["tcNeg"]}
@@ -187,8 +200,9 @@ def build(case, variant):
             return torch.tensor(case["kparams"][name], dtype=torch.float64).reshape(wshape)
         kpos = {"learning_rate": tens("lrPos"), "time_constant": tens("tcPos")}
         kneg = {"learning_rate": tens("lrNeg"), "time_constant": tens("tcNeg")}
-    tr = make_trainer(variant, p, case["red"], kpos, kneg)
-    tr.register_cell("cell", layer.cell)
+    ctor_inplace, cell_kw = inplace_flags(case.get("inplace"))
+    tr = make_trainer(variant, p, case["red"], kpos, kneg, inplace=ctor_inplace)
+    tr.register_cell("cell", layer.cell, **cell_kw)
     return layer, tr, outshape
 
 
@@ -209,8 +223,9 @@ def run_real(case, variant):
             conn.delay = torch.tensor(case["delays"][0], dtype=torch.float64).reshape(conn.delay.shape)
             out["p0"] = flat(getattr(conn, target))
             for t in range(case["T"]):
-                if case.get("clear_at") == t:       # second EPISODE: every event time must be NaN again
-                    tr.clear(keepshape=True) if case.get("clear_keep") else tr.clear()
+                for ct, keep in clears_of(case):    # next EPISODE: every event time must be NaN again
+                    if ct == t:
+                        tr.clear(keepshape=True) if keep else tr.clear()
                 if not learn:
                     conn.delay = torch.tensor(case["delays"][t], dtype=torch.float64).reshape(conn.delay.shape)
                 out["delays"].append(flat(conn.delay))
@@ -236,23 +251,48 @@ def run_real(case, variant):
     return out
 
 
+def clears_of(case):
+    """[(step before which trainer.clear is called, keepshape)] in step order: `clear_at` / `clear_keep` (one clear) and / or
+    `clears` (any number of them, each with its own keepshape)"""
+    out = [(int(t), bool(k)) for t, k in (case.get("clears") or [])]
+    if case.get("clear_at") is not None:
+        out.append((int(case["clear_at"]), bool(case.get("clear_keep"))))
+    return sorted(set(out))
+
+
+def episode_bounds(case):
+    cuts = sorted({t for t, _ in clears_of(case) if 0 < t < case["T"]})
+    return list(zip([0] + cuts, cuts + [case["T"]]))
+
+
+def clears_text(case):
+    return "; ".join(f"trainer.clear({'keepshape=True' if k else ''}) before step {t}" for t, k in clears_of(case))
+
+
+def inplace_text(case):
+    m = case.get("inplace")
+    return "" if not m else {"trainer": "; trainer constructed with inplace=True", "cell": "; cell registered with inplace=True",
+                             "cell-off": "; trainer constructed with inplace=True, cell registered with inplace=False"}[m]
+
+
 def episode_slice(case, a, b):
     c = dict(case)
-    c.update({"T": b - a, "pre": case["pre"][a:b], "post": case["post"][a:b], "delays": case["delays"][a:b], "clear_at": None})
+    c.update({"T": b - a, "pre": case["pre"][a:b], "post": case["post"][a:b], "delays": case["delays"][a:b], "clear_at": None, "clears": None})
     if case["signal"] is not None:
         c["signal"] = dict(case["signal"], v=case["signal"]["v"][a:b])
     return c
 
 
 def request_lines(case, variant, delays):
-    """delays: per step, per weight, the delay in effect (from the real run).  A run cleared at `clear_at` is sent
-    as two episodes (all weights of the first, then all weights of the second)."""
-    t0 = case.get("clear_at")
-    if t0 is None:
+    """delays: per step, per weight, the delay in effect (from the real run).  A run cleared in the middle is sent
+    episode by episode (all weights of the first, then all weights of the second, ...)."""
+    eps = episode_bounds(case)
+    if len(eps) == 1:
         return request_lines1(case, variant, delays)
-    l1, _ = request_lines1(episode_slice(case, 0, t0), variant, delays[:t0])
-    l2, _ = request_lines1(episode_slice(case, t0, case["T"]), variant, delays[t0:])
-    return l1 + l2, request_lines1(case, variant, delays)[1]
+    lines = []
+    for a, b in eps:
+        lines += request_lines1(episode_slice(case, a, b), variant, delays[a:b])[0]
+    return lines, request_lines1(case, variant, delays)[1]
 
 
 def request_lines1(case, variant, delays):
@@ -280,12 +320,12 @@ def request_lines1(case, variant, delays):
 
 
 def tables_for(case, resp):
-    t0 = case.get("clear_at")
-    if t0 is None:
+    eps = episode_bounds(case)
+    if len(eps) == 1:
         return tables_of(resp, case["T"])
-    nw = len(resp) // 2
-    a, b = tables_of(resp[:nw], t0), tables_of(resp[nw:], case["T"] - t0)
-    return {k: [np.concatenate([x, y], axis=1) for x, y in zip(a[k], b[k])] for k in a}
+    nw = len(resp) // len(eps)
+    parts = [tables_of(resp[i * nw:(i + 1) * nw], b - a) for i, (a, b) in enumerate(eps)]
+    return {k: [np.concatenate([pt[k][j] for pt in parts], axis=1) for j in range(4)] for k in parts[0]}
 
 
 def tables_of(resp, T):
@@ -397,6 +437,7 @@ def describe(case, w, tstr, delays):
             "mode": case["mode"], "signal": case["signal"], "weight_index": w, "kernel_kwargs_as": case.get("ktensor") or "floats",
             "kernel_params_of_this_weight": ({k: case["kparams"][k][w] for k in case["kparams"]} if case.get("ktensor") == "perw" else None),
             "trainer_cleared_before_step": case.get("clear_at"), "clear_keepshape": case.get("clear_keep"),
+            "trainer_clears (before step, keepshape)": clears_of(case), "inplace_given_as": case.get("inplace"),
             "delay_of_this_weight_per_step_ms": [float(d[w]) for d in delays],
             "history(pre:post per field element, ';' between batch samples)": tstr}
 
@@ -421,7 +462,7 @@ def synapse_case(case, w, tstr):
 # are defaults that register_cell(...) may override cell by cell.  Every cell must follow the documented rule of ITS OWN
 # presynaptic / postsynaptic spike times, with ITS OWN (effective) learning rates — signs included —, time constants and batch
 # reduction.  Cells that share a connection share its updater, whose accumulators then hold the sum of the cells' parts.
-def make_multi(rng, variants, topo, mode, signal_mode=None, zero_delay=False):
+def make_multi(rng, variants, topo, mode, signal_mode=None, zero_delay=False, episodes=False):
     """topo: 'serial' (one Serial cell, registered with overrides) | 'biclique' (1-3 connections x 1-2 neuron groups, two or more
     of its cells registered — in random order — with one trainer)"""
     dt = rng.choice([0.5, 1.0, 2.0])
@@ -460,8 +501,18 @@ def make_multi(rng, variants, topo, mode, signal_mode=None, zero_delay=False):
             else:
                 eff[k] = rng.choice([2.0, 4.0, 5.0, 10.0, 20.0])
         cells.append({"connection": ci, "group": gj, "override": over, "params": eff, "red": red})
-    return {"multi": topo, "variants": variants, "dt": dt, "B": B, "T": T, "mode": mode, "signal": proto["signal"],
-            "trainer_defaults": defaults, "connections": conns, "groups": groups, "cells": cells}
+    mc = {"multi": topo, "variants": variants, "dt": dt, "B": B, "T": T, "mode": mode, "signal": proto["signal"],
+          "trainer_defaults": defaults, "connections": conns, "groups": groups, "cells": cells}
+    if episodes:
+        # `inplace` is a constructor default / per-cell override like the others; the trainer is cleared once or twice mid-run
+        defaults["inplace"] = rng.random() < 0.4
+        for cell in cells:
+            if rng.random() < 0.5:
+                cell["inplace"] = rng.random() < 0.7
+                cell["override"] = cell["override"] + ["inplace"]
+        nclr = rng.choice([1, 1, 2])
+        mc["clears"] = sorted((t, rng.random() < 0.4) for t in rng.sample(range(1, T - 1), nclr))
+    return mc
 
 
 def cell_case(mc, k):
@@ -471,7 +522,7 @@ def cell_case(mc, k):
     cc, g = mc["connections"][cell["connection"]], mc["groups"][cell["group"]]
     return {"variants": mc["variants"], "params": cell["params"], "conn": cc["conn"], "geom": cc["geom"], "B": mc["B"], "T": mc["T"],
             "D": cc["D"], "delays": cc["delays"], "red": cell["red"], "mode": mc["mode"], "pre": cc["pre"], "post": g["post"],
-            "signal": mc["signal"]}
+            "signal": mc["signal"], "clears": mc.get("clears")}
 
 
 def override_kwargs(variant, cell):
@@ -489,6 +540,8 @@ def override_kwargs(variant, cell):
         kw = {HYPER[k]: p[k] for k in over if k in HYPER}
     if "red" in over:
         kw["batch_reduction"] = REDUCTIONS[cell["red"]]
+    if "inplace" in over:
+        kw["inplace"] = bool(cell["inplace"])
     return kw
 
 
@@ -514,7 +567,8 @@ def run_real_multi(mc, variant):
             else:
                 layer = Biclique([(f"c{i}", c) for i, c in enumerate(conns)], [(f"n{j}", n) for j, n in enumerate(neurons)])
                 get = lambda ci, gj: layer.get_cell(f"c{ci}", f"n{gj}")               # noqa: E731
-            tr = make_trainer(variant, mc["trainer_defaults"]["params"], mc["trainer_defaults"]["red"])
+            tr = make_trainer(variant, mc["trainer_defaults"]["params"], mc["trainer_defaults"]["red"],
+                              inplace=bool(mc["trainer_defaults"].get("inplace")))
             for k, cell in enumerate(mc["cells"]):
                 tr.register_cell(f"cell{k}", get(cell["connection"], cell["group"]), **override_kwargs(variant, cell))
             learn = mc["mode"] == "each" and target == "delay"
@@ -522,6 +576,9 @@ def run_real_multi(mc, variant):
                 c.delay = torch.tensor(cc["delays"][0], dtype=torch.float64).reshape(c.delay.shape)
                 o["p0"] = flat(getattr(c, target))
             for t in range(mc["T"]):
+                for ct, keep in clears_of(mc):
+                    if ct == t:
+                        tr.clear(keepshape=True) if keep else tr.clear()
                 for cc, c, o in zip(mc["connections"], conns, outs):
                     if not learn:
                         c.delay = torch.tensor(cc["delays"][t], dtype=torch.float64).reshape(c.delay.shape)
@@ -587,7 +644,7 @@ def judge_multi(mc, variant, real, resp, spans, tstrs):
         ks = cells_on(mc, ci)
         if not ks:
             continue
-        tables = sum_tables([tables_of(resp[spans[k][0]:spans[k][1]], mc["T"]) for k in ks])
+        tables = sum_tables([tables_for(cell_case(mc, k), resp[spans[k][0]:spans[k][1]]) for k in ks])
         for name, w, t, what, exp, obs in judge(cell_case(mc, ks[0]), variant, real["conns"][ci], tables):
             out.append((ci, name, w, t, what, exp, obs, {f"cell{k}": tstrs[k][w] for k in ks}))
     return out
@@ -597,7 +654,10 @@ def describe_multi(mc, ci, w, hist, delays):
     return {"layer": mc["multi"], "trainer_defaults": mc["trainer_defaults"], "connection_index": ci, "weight_index": w,
             "connection": mc["connections"][ci]["conn"], "geometry": mc["connections"][ci]["geom"],
             "cells_in_registration_order": [{"connection": c["connection"], "neuron_group": c["group"], "overrides": c["override"],
-                                             "effective_params": c["params"], "effective_reduction": c["red"]} for c in mc["cells"]],
+                                             "effective_params": c["params"], "effective_reduction": c["red"],
+                                             "effective_inplace": bool(c.get("inplace", mc["trainer_defaults"].get("inplace", False)))}
+                                            for c in mc["cells"]],
+            "trainer_clears (before step, keepshape)": clears_of(mc),
             "delay_of_this_weight_per_step_ms": [float(d[w]) for d in delays],
             "history of this weight per cell on the connection (pre:post, ';' between batch samples)": hist}
 
@@ -650,8 +710,15 @@ class Runner:
         ex.count("mode", mc["mode"])
         ex.count("batch", str(mc["B"]))
         ex.count("layer", f"{mc['multi']} {len(mc['connections'])}x{len(mc['groups'])}, {len(mc['cells'])} cell(s) registered")
-        dp = mc["trainer_defaults"]["params"]
+        dfl = mc["trainer_defaults"]
+        dp = dfl["params"]
+        for _, keep in clears_of(mc):
+            ex.count("episodes", "clear(keepshape=True)" if keep else "clear()")
+        if clears_of(mc):
+            ex.count("clears_per_run", str(len(clears_of(mc))))
         for cell in mc["cells"]:
+            eff_in = bool(cell.get("inplace", dfl.get("inplace", False)))
+            ex.count("inplace", ("per-cell override " if "inplace" in cell else "trainer default ") + str(eff_in) if "inplace" in dfl else "no")
             ex.count("connection", mc["connections"][cell["connection"]]["conn"])
             ex.count("reduction", cell["red"])
             flips = [k for k in ("lrPos", "lrNeg") if k in cell["override"] and (cell["params"][k] >= 0) != (dp[k] >= 0)]
@@ -662,7 +729,8 @@ class Runner:
             ex.count("variant", v)
             who = f"{NAMES[v]} on a {mc['multi']} layer ({len(mc['connections'])} connection(s) x {len(mc['groups'])} neuron group(s), cells " + \
                   ", ".join(f"(c{c['connection']}, n{c['group']})" + (f" overriding {'/'.join(c['override'])}" if c["override"] else "")
-                            for c in mc["cells"]) + ")"
+                            for c in mc["cells"]) + ")" + \
+                  (f", trainer default inplace={bool(dfl.get('inplace'))}" if "inplace" in dfl else "") + (f", {clears_text(mc)}" if clears_of(mc) else "")
             if "exc" in real:
                 self.add_finding("spec", f"C18:multi-cell:raises:{v}", f"{who} raised {real['exc']} at step {real['step']} instead of producing an update",
                                  {"case": dict(mc, variants=[v]), "raised": real["exc"], "step": real["step"]}, 2)
@@ -671,7 +739,8 @@ class Runner:
             for k, cell in enumerate(mc["cells"]):
                 delays = real["conns"][cell["connection"]]["delays"]
                 ex.evaluations += len(tstrs[k]) * mc["T"]
-                cfgkey = (v, "multi", tuple(sorted(cell["params"].items())), cell["red"], mc["B"], repr(mc["signal"]) if v.startswith("dam") else "")
+                cfgkey = (v, "multi", tuple(sorted(cell["params"].items())), cell["red"], mc["B"], repr(mc["signal"]) if v.startswith("dam") else "",
+                          tuple(clears_of(mc)), bool(cell.get("inplace", dfl.get("inplace", False))))
                 for w, s in enumerate(tstrs[k]):
                     if any("1" in x.split(":")[0] and "1" in x.split(":")[1] for f in s.split(";") for x in f.split(",")):
                         ex.nontriv((cfgkey, tuple(float(d[w]) for d in delays), s))
@@ -717,8 +786,11 @@ class Runner:
         ex.count("reduction", case["red"])
         ex.count("batch", str(case["B"]))
         ex.count("kernel_kwargs", case.get("ktensor") or "floats")
-        if case.get("clear_at") is not None:
-            ex.count("episodes", "clear(keepshape=True)" if case.get("clear_keep") else "clear()")
+        for _, keep in clears_of(case):
+            ex.count("episodes", "clear(keepshape=True)" if keep else "clear()")
+        if clears_of(case):
+            ex.count("clears_per_run", str(len(clears_of(case))))
+        ex.count("inplace", case.get("inplace") or "no")
         p = case["params"]
         ex.count("sign_mode", {(True, False): "hebbian", (False, True): "anti-hebbian", (True, True): "potentiative",
                                (False, False): "depressive"}[(p["lrPos"] >= 0, p["lrNeg"] >= 0)])
@@ -731,7 +803,7 @@ class Runner:
             nw = len(tstr)
             ex.evaluations += nw * len(real["steps"])
             cfgkey = (v, tuple(sorted(p.items())), case["red"], case["B"], repr(case["signal"]) if v.startswith("dam") else "",
-                      case.get("clear_at"), case.get("clear_keep"), case.get("ktensor"), repr(case.get("kparams")) if v in KERNEL else "")
+                      tuple(clears_of(case)), case.get("inplace"), case.get("ktensor"), repr(case.get("kparams")) if v in KERNEL else "")
             for w, s in enumerate(tstr):
                 if any("1" in x.split(":")[0] and "1" in x.split(":")[1] for f in s.split(";") for x in f.split(",")):
                     ex.nontriv((cfgkey, tuple(float(d[w]) for d in real["delays"]), s))
@@ -752,7 +824,7 @@ class Runner:
                             rep = small
                 self.add_finding(kindf, key, f"{NAMES[v]}: {what} after step {t}: real {obs} vs {stream} {exp} "
                                  f"[{case['conn']} history {tstr[w]} delays {[float(d[w]) for d in real['delays']]}" +
-                                 (f"; trainer.clear({'keepshape=True' if case.get('clear_keep') else ''}) before step {case['clear_at']}" if case.get("clear_at") is not None else "") +
+                                 (f"; {clears_text(case)}" if clears_of(case) else "") + inplace_text(case) +
                                  (f"; kernel kwargs as {case['ktensor']} tensors" if case.get("ktensor") and v in KERNEL else "") + "]",
                                  {"case": rep, "weight": describe(case, w, tstr[w], real["delays"]), "step": t, "expected": exp,
                                   "observed": obs, "stream": name, "variant": v})
@@ -770,7 +842,7 @@ class Runner:
                                      f"{NAMES[a]} and {NAMES[b]} disagree on accumulator {label} after step {t}: {va} vs {vb} "
                                      f"[{case['conn']} history {tstr[w] if tstr else '?'}" +
                                      (f"; kernel kwargs as {case['ktensor']} tensors" if case.get("ktensor") else "") +
-                                     (f"; trainer.clear({'keepshape=True' if case.get('clear_keep') else ''}) before step {case['clear_at']}" if case.get("clear_at") is not None else "") + "]",
+                                     (f"; {clears_text(case)}" if clears_of(case) else "") + inplace_text(case) + "]",
                                      {"case": dict(case, variants=[a, b]), "weight": describe(case, w, tstr[w], reals[a]["delays"]),
                                       "step": t, "first": va, "second": vb, "relation": rel})
 
@@ -833,6 +905,8 @@ def explore(ctx) -> Exploration:
                          zero_delay=zero, signal_mode=sm)
         if any(v in KERNEL for v in variants) and rng.random() < 0.7:
             set_ktensor(rng, case, rng.choice(["0d", "const", "perw"]))
+        if r % 4 == 3:
+            case["inplace"] = INPLACE[1 + (r // 4) % 3]
         R.add(case, "random-population")
         if len(R.cases) >= 40:
             R.flush()
@@ -840,7 +914,9 @@ def explore(ctx) -> Exploration:
 
     # (3) EPISODES: trainer.clear(keepshape=True | False) in the middle of a run — afterwards every "time since the last
     #     spike" is NaN again: no change until both sides have spiked AFTER the clear, t_delta from post-clear spikes only
-    nep = 105 if heavy else 35
+    #     `inplace` (records written in place; a constructor default that register_cell may override) is an implementation option:
+    #     with it, across one or two clears of either kind, the documented update is the same
+    nep = 126 if heavy else 42
     for r in range(nep):
         variants, sm = groups[r % len(groups)]
         one = r % 3 == 0
@@ -849,9 +925,12 @@ def explore(ctx) -> Exploration:
         case = make_case(rng, variants, SIGNS[rng.randrange(4)], "dense", geom, 1 if one else rng.choice([1, 2, 3]), T,
                          rng.choice(["sum", "mean"]), rng.choice(["end", "each", "sched"]), zero_delay="k" in variants, signal_mode=sm)
         case["clear_at"] = rng.randint(2, T - 3)
-        case["clear_keep"] = r % 5 != 4
+        case["clear_keep"] = (r // len(groups)) % 2 == 0
         if any(v in KERNEL for v in variants) and rng.random() < 0.5:
             set_ktensor(rng, case, rng.choice(["0d", "const", "perw"]))
+        case["inplace"] = INPLACE[(r // len(groups) + r % len(groups)) % 4] if r % 2 else rng.choice(INPLACE)
+        if rng.random() < 0.3:         # a third episode
+            case["clears"] = [(rng.choice([t for t in range(1, T) if t != case["clear_at"]]), rng.random() < 0.5)]
         R.add(case, "episodes")
     R.flush()
 
@@ -867,15 +946,27 @@ def explore(ctx) -> Exploration:
         if len(R.cases) >= 42:
             R.flush()
     R.flush()
+
+    # (5) CONFIGURATIONS x EPISODES: the same layers, `inplace` as a trainer default and / or a per-cell override (either way round),
+    #     the trainer cleared once or twice mid-run with either keepshape — every cell starts a new episode at every clear
+    nme = 63 if heavy else 21
+    for r in range(nme):
+        variants, sm = groups[r % len(groups)]
+        topo = "serial" if (r // len(groups)) % 3 == 0 else "biclique"
+        R.add_multi(make_multi(rng, variants, topo, rng.choice(["end", "each", "sched"]), signal_mode=sm, zero_delay="k" in variants, episodes=True),
+                    "per-cell-overrides-episodes" if topo == "serial" else "multi-cell-layer-episodes")
+    R.flush()
     ex.rule = ("(1) a dense 2^T x 2^T layer (T = 4 quick / 6 thorough) in which synapse (i -> j) carries pre history i and post history j — every "
                "pre/post history of that length, all its prefixes compared step by step — per sign mode and trainer group, with delays on a "
                "half-step grid, fixed ('end'), reset before every step ('sched') or learned ('each', delay trainers); (2) random histories on dense / "
                "direct / lateral / conv cells, batches 1-4, sum / mean, scalar and per-sample signals; (3) two-episode runs with trainer.clear(keepshape=True|False) "
-               "in the middle, the second episode judged from post-clear spikes only; the kernel trainers get their rates / time constants as floats, 0-d tensors, "
+               "in the middle (one or two clears; trainers / cells with and without inplace=True, given to the constructor or to register_cell), every later episode "
+               "judged from the spikes since the last clear only; the kernel trainers get their rates / time constants as floats, 0-d tensors, "
                "weight-shaped constant tensors or per-weight tensors; (4) configurations: a Serial cell registered with per-cell overrides of the trainer's "
                "learning rates (either sign) / time constants / batch reduction, and Biclique layers (1-3 connections x 1-2 neuron groups, dense / direct / lateral) "
                "with two or more cells registered in random order with one trainer, each with its own overrides, each connection's accumulators judged "
-               "against the sum of the documented updates of the cells on it, computed from each cell's own spike trains.  Each real trainer is compared with the "
+               "against the sum of the documented updates of the cells on it, computed from each cell's own spike trains; (5) the configurations of (4) with inplace as trainer default and / or per-cell override and "
+               "one or two trainer.clear(keepshape=True|False) mid-run.  Each real trainer is compared with the "
                "model (M), the formula from true last-spike times (S) and its sibling implementation.  One case = one weight's run of one "
                "trainer; non-trivial = both neurons of some receptive-field element spike; distinct = distinct (trainer, configuration, delays, history)")
     return ex
